@@ -73,11 +73,11 @@ def _lse(a, axis):
         return np.squeeze(m, axis=axis) + np.log(np.sum(np.exp(a - m), axis=axis))
 
 
-def site_log_likelihoods(postorder, ntaxa, blens, seqs, model, kappa=None, pi=None):
+def site_log_likelihoods(postorder, ntaxa, blens, seqs, model, kappa=None, pi=None, rooted=False):
     """Per-site log-likelihoods of an unrooted tree given as rooted binary
     post-order triples; blens has 2n-3 entries, the branch with index 2n-3 (one of
-    the two root branches) has length zero."""
-    t = np.concatenate([np.asarray(blens, dtype=np.float64), [0.0]])
+    the two root branches) has length zero.  rooted=True: blens has all 2n-2 entries."""
+    t = np.asarray(blens, dtype=np.float64) if rooted else np.concatenate([np.asarray(blens, dtype=np.float64), [0.0]])
     if model == "JC69":
         logP = log_p_jc69(t)
         logpi = np.log(np.full(4, 0.25))
